@@ -2,7 +2,8 @@
 // Read() takes bytes from `in`, Write() appends to `out`; how many bytes each call moves is decided by the harness:
 //   * a per-call script (list of counts; 0 = would-block) consumed one entry per call, then
 //   * a default policy once the script is exhausted: ALL (everything asked for), BLOCK (0), or a uniform chunk size, and
-//   * optional cut points (absolute stream offsets): a call never crosses the next cut point (short count, no would-block).
+//   * optional cut points (absolute stream offsets): a call never crosses the next cut point (short count, no would-block),
+//   * optional would-block points (one zero answer when the stream stands at that offset) and a byte budget ("window").
 // Every call is logged (offset at the time of the call, size asked, count returned) so that reference runs can report where
 // the gateway's own buffer boundaries are.
 #ifndef VERIF_C03_PIPE_H
@@ -23,9 +24,11 @@ struct Dir {
    std::vector<int> script; size_t spos;     // per-call answers (max count; 0 = would-block); consumed first
    int policy;                               // afterwards
    std::vector<uint32> cuts; size_t cpos;    // sorted absolute offsets no single call may cross
+   std::vector<uint32> blockAt; size_t bpos; // sorted absolute offsets at which one call is answered with 0 (would-block) before data moves on
+   long budget;                              // total bytes that may still move (a "window": socket buffer space / bytes available); -1 = unlimited
    std::vector<uint32> callOffsets;          // offset at which each call with size>0 started
    uint32 calls, zeroAnswers, maxAsked;
-   Dir() : spos(0), policy(POLICY_ALL), cpos(0), calls(0), zeroAnswers(0), maxAsked(0) {}
+   Dir() : spos(0), policy(POLICY_ALL), cpos(0), bpos(0), budget(-1), calls(0), zeroAnswers(0), maxAsked(0) {}
    // how many of `asked` bytes (of which `avail` exist) this call moves, given the current absolute offset
    uint32 Decide(uint32 asked, uint32 avail, uint32 offset)
    {
@@ -35,6 +38,9 @@ struct Dir {
       else if (policy >= 0 && (uint32)policy < n) n = (uint32)policy;
       while (cpos < cuts.size() && cuts[cpos] <= offset) cpos++;
       if (cpos < cuts.size() && offset + n > cuts[cpos]) n = cuts[cpos] - offset;
+      while (bpos < blockAt.size() && blockAt[bpos] < offset) bpos++;
+      if (bpos < blockAt.size() && blockAt[bpos] == offset) { bpos++; n = 0; }
+      if (budget >= 0) { if ((long)n > budget) n = (uint32)budget; budget -= (long)n; }
       if (n == 0) zeroAnswers++;
       return n;
    }
